@@ -12,7 +12,7 @@ import json
 from tcv import gen
 
 RULE = ('seeded cases: 1-3 method slots (name, version; same name with different versions, look-alike names) with generated '
-        'signatures (0-3 positional-or-keyword parameters with trailing defaults, 0-2 keyword-only parameters, ignored subsets) '
+        'signatures (0-3 positional-or-keyword parameters with trailing defaults, 0-2 keyword-only parameters, a quarter with a **kwargs catch-all and 0-2 extra keyword arguments, ignored subsets) '
         'on one cache; 3-8 bindings per slot over JSON-like values that Python\'s == conflates (0/False/0.0, 1/True/1.0, "1", '
         'nested mappings in different insertion orders), each called in 2-6 spellings plus single-argument perturbations '
         '(ignored and non-ignored), with force_cache / only_cache / store_cache_value (and the rejected combination), raising '
@@ -23,7 +23,7 @@ RULE = ('seeded cases: 1-3 method slots (name, version; same name with different
 ASSUMPTIONS = ['argument values are JSON-like (None/bool/int/float/str/list/dict with str keys); two values are the same argument iff '
                'their json.dumps(sort_keys=True) texts are equal (type-strict identity)',
                'method names are identifiers (no "."), versions are path-component strings; parameters are not named like the '
-               'control keywords nor `obj` (the wrapper\'s own first parameter: `o.m(obj=1)` raises TypeError); no *args/**kwargs in the decorated signature',
+               'control keywords nor `obj` (the wrapper\'s own first parameter: `o.m(obj=1)` raises TypeError); no *args in the decorated signature; a `**rest_` catch-all with extra keyword arguments named zx/a0/Z/extra is part of the domain (theorems in Props/C16Kwargs.lean)',
                'json.dumps(…, sort_keys=True) is injective on JSON-distinguishable sorted dictionaries (hypothesis of '
                'different_binding_different_key; exercised, not proved)']
 TRUSTED = ['modelled, not verified: inspect.signature parameter order/defaults, dict insertion order, json.dumps text '
@@ -60,6 +60,14 @@ def jtext(v):
 
 # ------------------------------------------------------------------------------------------- generated methods
 
+class SigList(list):
+    """the parameters of a generated method; `varkw`: the method also takes `**rest_` (extra keyword arguments)"""
+    varkw = False
+
+
+EXTRAS = ['zx', 'a0', 'Z', 'extra']           # names of extra keyword arguments (never parameter names)
+
+
 def gen_sig(rng):
     npos, nkw = rng.choice([0, 1, 1, 2, 2, 3]), rng.choice([0, 0, 1, 1, 2])
     names = rng.sample(NAMES, npos + nkw)
@@ -74,6 +82,11 @@ def gen_sig(rng):
     ign = [p['name'] for p in params if rng.random() < 0.2]
     if rng.random() < 0.1:
         ign.append('not_a_param')
+    params = SigList(params)
+    if rng.random() < 0.25:
+        params.varkw = True
+        if rng.random() < 0.3:
+            ign.append(rng.choice(EXTRAS))          # an ignored extra keyword
     return params, ign
 
 
@@ -91,6 +104,9 @@ def make_function(name, params):
     if kw:
         sig += ', *' + ''.join(', ' + decl(p) for p in kw)
     body = ', '.join(f"{p['name']!r}: {p['name']}" for p in params)
+    if getattr(params, 'varkw', False):
+        sig += ', **rest_'
+        body += (', ' if body else '') + "'rest_': rest_"
     src = (f"def {name}({sig}):\n"
            f"    self.log.append({name!r})\n"
            f"    if self.boom:\n        raise Boom()\n"
@@ -111,7 +127,11 @@ def sig_json(params):
 
 
 def gen_binding(rng, params):
-    return {p['name']: (p['default'] if p['has_default'] and rng.random() < 0.4 else rng.choice(VALS)) for p in params}
+    b = {p['name']: (p['default'] if p['has_default'] and rng.random() < 0.4 else rng.choice(VALS)) for p in params}
+    if getattr(params, 'varkw', False) and rng.random() < 0.75:
+        # extra keyword arguments, caught by `**rest_`: part of the call like any named argument
+        b['**'] = {n: rng.choice(VALS) for n in rng.sample(EXTRAS, rng.randint(1, 2))}
+    return b
 
 
 def reorder(rng, v):
@@ -134,8 +154,13 @@ def spell(rng, params, b):
     args = [b[p['name']] for p in pos[:npos_given]]
     rest = pos[npos_given:] + [p for p in params if p['kw_only']]
     rng.shuffle(rest)
+    rest = [(p, None) for p in rest] + [(None, n) for n in b.get('**', {})]
+    rng.shuffle(rest)
     kwargs = {}
-    for p in rest:
+    for p, extra in rest:
+        if p is None:
+            kwargs[extra] = b['**'][extra]
+            continue
         if p['has_default'] and jtext(b[p['name']]) == jtext(p['default']) and rng.random() < 0.5:
             continue
         kwargs[p['name']] = b[p['name']]
@@ -291,7 +316,7 @@ def run_case(ctx, rng, idx, root):
         bindings = s['bindings']
         plan = []
         for b in bindings:
-            k = rng.randint(2, 6) if s['params'] else 1
+            k = rng.randint(2, 6) if (s['params'] or b.get('**')) else 1
             for _ in range(k):
                 plan.append((b, 'valid'))
             stats['spellings'] = max(stats['spellings'], k)
@@ -300,6 +325,22 @@ def run_case(ctx, rng, idx, root):
                 victim = rng.choice(s['params'])['name']
                 b2[victim] = rng.choice([v for v in VALS if jtext(v) != jtext(b[victim])])
                 plan.append((b2, 'valid'))
+            if s['params'].varkw and rng.random() < 0.8:
+                # the same call with another value for / without / with one more extra keyword argument
+                b3 = dict(b); ex = dict(b.get('**', {}))
+                how = rng.choice(['change', 'drop', 'add']) if ex else 'add'
+                if how == 'add':
+                    free = [n for n in EXTRAS if n not in ex]
+                    ex[rng.choice(free)] = rng.choice(VALS)
+                else:
+                    n = rng.choice(sorted(ex))
+                    if how == 'drop':
+                        del ex[n]
+                    else:
+                        ex[n] = rng.choice([v for v in VALS if jtext(v) != jtext(ex[n])])
+                b3['**'] = ex
+                plan.append((b3, 'valid'))
+                stats['extras'] = stats.get('extras', 0) + 1
             if rng.random() < 0.25:
                 plan.append((b, 'invalid'))
         rng.shuffle(plan)
@@ -327,7 +368,7 @@ def run_case(ctx, rng, idx, root):
             res_idx = 'raise' if o.boom else ({'ret': intern(would)} if would is not None else {'ret': None})
             call = {'method': s['method'], 'version': s['version'], 'sig': sig_json(s['params']), 'ign': s['ign'],
                     'args': [jv(a) for a in args], 'kwargs': [[k, jv(v)] for k, v in kwargs.items()],
-                    'force': ctl['force'], 'only': ctl['only'], 'result': res_idx}
+                    'force': ctl['force'], 'only': ctl['only'], 'result': res_idx, **({'varkw': 'rest_'} if s['params'].varkw else {})}
             if ctl['store'] is not None:
                 call['store'] = {'v': None if ctl['store']['v'] is None else intern(ctl['store']['v'])}
             # run the real decorated method
@@ -373,7 +414,9 @@ def oracle(ctx, case, impl, meta, slots):
         if m['pyb'] is None or got['out'] == 'assert':
             continue
         s = slots[m['slot']]
-        ident = (m['slot'], jtext({k: v for k, v in m['pyb'].items() if k not in s['ign']}))
+        # (extra keyword arguments caught by `**rest_` are arguments like the named ones: flattened, then ignored names dropped)
+        flat = {**{k: v for k, v in m['pyb'].items() if k != 'rest_'}, **m['pyb'].get('rest_', {})} if s['params'].varkw else m['pyb']
+        ident = (m['slot'], jtext({k: v for k, v in flat.items() if k not in s['ign']}))
         detail = {'call_index': i, 'method': s['method'], 'version': s['version'], 'ignore': s['ign'], 'args': m['args'],
                   'kwargs': m['kwargs'], 'ctl': m['ctl'], 'got': got}
         loc = (got['sub'], got['key'])
@@ -442,13 +485,16 @@ def run(ctx):
         reqs.append({'m': 'cached', 'op': 'calls', 'kind': 'json' if case['kind'] == 'json' else 'mem', 'own': case['own'],
                      'calls': case['calls']})
         for c, m in zip(case['calls'], meta):
-            reqs.append({'m': 'cached', 'op': 'key', 'sig': c['sig'], 'ign': c['ign'], 'args': c['args'], 'kwargs': c['kwargs']})
+            reqs.append({'m': 'cached', 'op': 'key', 'sig': c['sig'], 'ign': c['ign'], 'args': c['args'], 'kwargs': c['kwargs'],
+                         **({'varkw': 'rest_'} if slots[m['slot']]['params'].varkw else {})})
     mos = iter(ctx.model.many(reqs))
     for case, impl, meta, entries, slots, stats in batch:
         mo = next(mos)
         keyinfo = [next(mos) for _ in case['calls']]
         ctx.case(case, nontrivial=stats['params'] >= 2 and stats['spellings'] >= 2)
         ctx.count(f"backend={case['kind']}" + ('/bare' if case['bare'] else ''))
+        if any(s_['params'].varkw for s_ in slots):
+            ctx.count('catch-all-kwargs'); ctx.count('extra-keyword-variants', stats.get('extras', 0))
         ctx.count('calls', len(case['calls']))
         for m, got in zip(meta, impl):
             ctx.count('mode=' + m['mode'])
@@ -473,7 +519,10 @@ def run(ctx):
                 bad = ('cached_valid', i, {'python_accepts': py_valid}, {'valid': ki['valid']})
                 break
             if py_valid:
-                pyb = [[k, jtext(v)] for k, v in m['pyb'].items()]
+                # (extra keyword arguments: flattened out of the catch-all dictionary, in call order — `bindingKw`)
+                pyb = [[k, jtext(v)] for k, v in m['pyb'].items() if k != 'rest_' or not slots[m['slot']]['params'].varkw]
+                if slots[m['slot']]['params'].varkw:
+                    pyb += [[k, jtext(v)] for k, v in m['pyb'].get('rest_', {}).items()]
                 if pyb != ki['binding']:
                     bad = ('cached_binding', i, pyb, ki['binding'])
                     break
